@@ -163,6 +163,8 @@ def split_keys(data):
         if c == 0x1B:
             if b[i:i + 4] == b"\x1b[3~":
                 n = 4
+            elif b[i:i + 5] == b"\x1b[15~" or b[i:i + 6] == b"\x1b[1;5C" or b[i:i + 7] in (b"\x1b[1;10A", b"\x1b[1;10B", b"\x1b[1;10C", b"\x1b[1;10D"):
+                n = 5 if b[i + 2:i + 4] == b"15" else 6 if b[i + 4:i + 5] == b"5" else 7       # F5, Ctrl-RIGHT, Esc+Shift-arrows (the longest table keys)
             elif b[i:i + 3] in (b"\x1b[A", b"\x1b[B", b"\x1bOP"):
                 n = 3
             else:
